@@ -7,7 +7,7 @@
     cap's covering represents every index cell within the limit ([CoverFinite], H-CAPARITH). *)
 From Coq Require Import ZArith List Bool Lia Sorted.
 From Geo Require Import Model.EdgeQuery Proofs.C05_CellFacts Proofs.C08_Post Proofs.C08_Opt Proofs.C08_Heap Proofs.C08_Main
-  Proofs.C08_Cells Proofs.C08_Split Proofs.C08_Term Proofs.C08_Cover Proofs.C08_Approx.
+  Proofs.C08_Cells Proofs.C08_Split Proofs.C08_Term Proofs.C08_Cover Proofs.C08_Cleanup Proofs.C08_Approx.
 Import ListNotations.
 Local Open Scope Z_scope.
 
@@ -19,13 +19,28 @@ Section Final.
   Hypothesis WF : IndexWF x.
   Hypothesis NE : x_cells x <> [].
 
-  (** for a finite limit: the entries initQueue derives from the search cap's covering *)
+  (** for a finite limit: the cells of CellUnionFromIntersection(indexCovering, FastCovering(search
+      cap)) are valid cell ids, not absurdly many, and the entries the clean-up loop makes of them
+      represent every index cell holding an edge within the limit (H-CAPARITH, C05). That those
+      entries are sound — an index cell always under its own id — is proved (C08_Cleanup). *)
   Definition CoverFinite (t : target D) (edist : eid -> D) : Prop := forall lim,
     d_eqb ops lim (d_inf ops) = false ->
-    (forall ce, In ce (init_entries D ops t x false lim) -> valid (fst ce) /\ centry_ok x ce) /\
+    (forall id, In id (t_initial_cells t lim) -> valid id) /\
     (forall c, In c (x_cells x) -> (exists e, In e (snd c) /\ d_less ops (edist e) lim = true) ->
        exists ce, In ce (init_entries D ops t x false lim) /\ rep ce c) /\
-    Z.of_nat (length (init_entries D ops t x false lim)) < 2 ^ 17.
+    Z.of_nat (length (t_initial_cells t lim)) < 2 ^ 17.
+
+  Lemma finite_entries_good t lim : d_eqb ops lim (d_inf ops) = false ->
+    (forall id, In id (t_initial_cells t lim) -> valid id) ->
+    forall ce, In ce (init_entries D ops t x false lim) -> centry_good x ce.
+  Proof.
+    intros E Vi ce H. unfold init_entries in H. rewrite E in H.
+    destruct (init_covering_sound x WF NE) as (G & _ & _).
+    exact (cleanup_entries_good x WF _ G _ Vi _ _ ce H).
+  Qed.
+  Lemma finite_entries_length t lim : d_eqb ops lim (d_inf ops) = false ->
+    (length (init_entries D ops t x false lim) <= length (t_initial_cells t lim))%nat.
+  Proof. intros E. unfold init_entries. rewrite E. apply cleanup_length. Qed.
 
   Record WfPremises (o : options D) (t : target D) (edist : eid -> D) (cdist : Z -> D) : Prop := mkWfPremises {
     w_exact : ExactTarget D ops t edist cdist;
@@ -44,7 +59,8 @@ Section Final.
       destruct (init_covering_sound x WF NE) as (G & R & _). split.
       + intros ce H. exact (G ce H).
       + intros c Hc _. exact (R c Hc).
-    - destruct (CF lim E) as (A & B & _). split; assumption.
+    - destruct (CF lim E) as (A & B & _). split; [|exact B].
+      intros ce H. exact (finite_entries_good t lim E A ce H).
   Qed.
 
   Lemma init_ok_wf t edist : CoverFinite t edist -> forall lim,
@@ -54,7 +70,8 @@ Section Final.
     intros CF lim. destruct (d_eqb ops lim (d_inf ops)) eqn:E.
     - unfold init_entries. rewrite E. destruct (init_covering_sound x WF NE) as (G & _ & L).
       split; [exact G|]. change (2 ^ 17) with 131072. lia.
-    - destruct (CF lim E) as (A & _ & L). split; [exact A|exact L].
+    - destruct (CF lim E) as (A & _ & L). split; [exact (finite_entries_good t lim E A)|].
+      pose proof (finite_entries_length t lim E). lia.
   Qed.
 
   Lemma wf_premises o t edist cdist : WfPremises o t edist cdist ->
